@@ -531,11 +531,15 @@ class ProgGen:
     def g_tensordot(self, vals, arrs):
         rng = self.rng
         i = self.pick(arrs, vals)
-        j = self.pick(arrs, vals)
+        j = self.pick(arrs, vals, lambda v: v.chinfo == vals[i].chinfo)
+        if j is None:
+            return None
         a, b = vals[i], vals[j]
         pairs = self.contractible_pairs(a, b)
         kmax = min(a.rank, b.rank, 3)
-        m = self.matching(pairs, rng.randint(0 if rng.random() < 0.15 else 1, kmax)) if pairs else []
+        # half of the time contract as many legs as possible (multi-leg contractions exercise the F-stride keys)
+        want = kmax if rng.random() < 0.5 else rng.randint(0 if rng.random() < 0.15 else 1, kmax)
+        m = self.matching(pairs, want) if pairs else []
         if not m and rng.random() < 0.7:
             return None
         k = len(m)
